@@ -32,6 +32,9 @@ package dhcp
 //@   inv avfree: forall i int, m string :: 0 <= i && i < len(self.available) && m in self.allocated ==> ipkey(self.available[i]) != ipkey(self.allocated[m])
 //@   inv inj: forall m string, n string :: m in self.allocated && n in self.allocated && m != n ==> ipkey(self.allocated[m]) != ipkey(self.allocated[n])
 //@   inv quar: forall i int :: 0 <= i && i < len(self.available) ==> ipstr(self.available[i]) !in self.unavailable
+// "only hands out values ... that are not the gateway": neither a free nor a bound address is the pool's gateway
+//@   inv avgw: forall i int :: 0 <= i && i < len(self.available) ==> ipkey(self.available[i]) != ipkey(self.Gateway)
+//@   inv algw: forall m string :: m in self.allocated ==> ipkey(self.allocated[m]) != ipkey(self.Gateway)
 
 //@ type PoolManager
 //@   owns poolsMu: pools defaultPoolID
@@ -45,6 +48,7 @@ package dhcp
 
 //@ func (p *Pool) Allocate
 //@   modifies p.allocated, p.available
+//@   ensures err == nil ==> ipkey(result) != ipkey(p.Gateway)
 //@   ensures err == nil ==> macstr(mac) in p.allocated && p.allocated[macstr(mac)] == result
 //@   ensures err == nil ==> forall m string :: m in p.allocated && m != macstr(mac) ==> ipkey(p.allocated[m]) != ipkey(result)
 //@   ensures forall m string :: m != macstr(mac) ==> (m in p.allocated) == locked(m in p.allocated) && p.allocated[m] == locked(p.allocated[m])
@@ -64,7 +68,7 @@ package dhcp
 //@   ensures (exists m string :: locked(m in p.allocated) && ipkey(locked(p.allocated[m])) == ipkey(ip)) && ipstr(ip) !in p.unavailable ==> exists i int :: 0 <= i && i < len(p.available) && ipkey(p.available[i]) == ipkey(ip)
 
 //@ loop Pool.Release#1
-//@   invariant p.nonnil && p.avdist && p.avfree && p.inj && p.quar
+//@   invariant p.nonnil && p.avdist && p.avfree && p.inj && p.quar && p.avgw && p.algw
 //@   invariant dom(p.allocated) == locked(dom(p.allocated)) && vals(p.allocated) == locked(vals(p.allocated))
 //@   invariant p.available == locked(p.available) && elems(p.available) == locked(elems(p.available))
 //@   invariant forall m string :: m in visited ==> ipkey(p.allocated[m]) != ipkey(ip)
@@ -78,7 +82,7 @@ package dhcp
 //@   ensures dom(p.allocated) == locked(dom(p.allocated)) && vals(p.allocated) == locked(vals(p.allocated))
 
 //@ loop Pool.MarkUnavailable#1
-//@   invariant p.nonnil && p.avdist && p.avfree && p.inj
+//@   invariant p.nonnil && p.avdist && p.avfree && p.inj && p.avgw && p.algw
 //@   invariant p.available == locked(p.available) && elems(p.available) == locked(elems(p.available))
 //@   invariant ipstr(ip) in p.unavailable
 //@   invariant forall s string :: locked(s in p.unavailable) ==> s in p.unavailable
